@@ -131,7 +131,7 @@ class SimRawIO(io.RawIOBase):
             raise SimCrash
         if r == "frozen":
             return
-        if "r" in mode:
+        if "r" in mode:  # "r" and "r+": the file must exist, nothing is truncated
             if path not in disk.files:
                 disk._log("open-missing", path)
                 raise FileNotFoundError(errno.ENOENT, "sim: no such file", path)
@@ -154,7 +154,39 @@ class SimRawIO(io.RawIOBase):
         return self._w
 
     def seekable(self):
-        return False
+        return True
+
+    def tell(self):
+        return self._pos
+
+    def seek(self, offset, whence=0):
+        data = self.disk.files.get(self.path, b"")
+        if whence == 0:
+            pos = offset
+        elif whence == 1:
+            pos = self._pos + offset
+        else:
+            pos = len(data) + offset
+        if pos < 0:
+            raise OSError(errno.EINVAL, "sim: negative seek position")
+        self._pos = pos
+        return pos
+
+    def truncate(self, size=None):
+        size = self._pos if size is None else size
+        r = self.disk.op("truncate", self.path)
+        if r == "frozen":
+            return size
+        if isinstance(r, tuple):
+            raise SimCrash
+        f = self.disk.files.setdefault(self.path, bytearray())
+        if size < len(f):
+            del f[size:]
+        else:
+            f.extend(b"\0" * (size - len(f)))
+        self.disk.mutating_ops += 1
+        self.disk._log("truncate", self.path, size, self.rid)
+        return size
 
     def fileno(self):
         raise OSError("sim: no file descriptor")
@@ -201,6 +233,10 @@ class SimRawIO(io.RawIOBase):
 
     def _apply(self, data: bytes) -> None:
         f = self.disk.files.setdefault(self.path, bytearray())
+        if "a" in self.mode:
+            self._pos = len(f)
+        if self._pos > len(f):
+            f.extend(b"\0" * (self._pos - len(f)))
         f[self._pos:self._pos + len(data)] = data
         self._pos += len(data)
         self.disk.mutating_ops += 1
